@@ -634,3 +634,29 @@ func (p *Prog) IsPkgConst(v ssa.Value, rel, name string) bool {
 	got, ok := ConstInt(v)
 	return ok && got == want
 }
+
+// RetResults returns the values a Return yields, seeing through go/ssa's
+// defer-spilled results (in functions with defers, "return X" is compiled as
+// "*res = X; rundefers; t = *res; return t").
+func RetResults(ret *ssa.Return) []ssa.Value {
+	out := make([]ssa.Value, len(ret.Results))
+	for i, res := range ret.Results {
+		out[i] = res
+		u, ok := res.(*ssa.UnOp)
+		if !ok || u.Op != token.MUL {
+			continue
+		}
+		al, ok := u.X.(*ssa.Alloc)
+		if !ok {
+			continue
+		}
+		b := ret.Block()
+		for j := len(b.Instrs) - 1; j >= 0; j-- {
+			if st, ok := b.Instrs[j].(*ssa.Store); ok && st.Addr == ssa.Value(al) {
+				out[i] = st.Val
+				break
+			}
+		}
+	}
+	return out
+}
